@@ -238,7 +238,9 @@ func (self AnalyzedRangeLiteralExpression) String() string {
 	return fmt.Sprintf("%s..%s%s", self.Start, endIsInclusiveStr, self.End)
 }
 func (self AnalyzedRangeLiteralExpression) Type() Type     { return NewRangeType(self.Range) }
-func (self AnalyzedRangeLiteralExpression) Constant() bool { return true }
+func (self AnalyzedRangeLiteralExpression) Constant() bool {
+	return self.Start.Constant() && self.End.Constant()
+}
 
 //
 // List literal
@@ -520,7 +522,9 @@ func (self AnalyzedIndexExpression) String() string {
 	return fmt.Sprintf("%s[%s]", self.Base, self.Index)
 }
 func (self AnalyzedIndexExpression) Type() Type     { return self.ResultType }
-func (self AnalyzedIndexExpression) Constant() bool { return self.Base.Constant() }
+func (self AnalyzedIndexExpression) Constant() bool {
+	return self.Base.Constant() && self.Index.Constant()
+}
 
 //
 // Member expression
